@@ -610,6 +610,7 @@ type c17Expect struct {
 	goPos   *aboard  // may be nil when unknown
 	goArgs  bool
 	isGo    bool
+	goOver  bool // go on a finished game: the searcher may look at the position, but names no move
 	isNew   bool
 	isPos   bool
 	posWant *aboard // isPos && status N: the declared position
@@ -764,7 +765,7 @@ func (o *c17Oracle) expect(line string) c17Expect {
 		}
 		e.goPos = o.pos
 		if over, _, _ := o.pos.outcome(); over {
-			e.exact = true // finished game: no move to name
+			e.exact, e.goOver = true, true // finished game: no move to name
 			return e
 		}
 		if clock.safe() {
@@ -919,7 +920,14 @@ func (o *c17Oracle) judgeLines(lines []string, recs []c17Rec) {
 			o.fail("position-mismatch", ctx+": engine position "+r.pos, "declared position "+c17Enc(e.posWant))
 		}
 		if e.isGo {
-			if e.exact && r.nevals > 0 {
+			if e.goOver {
+				for _, q := range r.evals {
+					if q != c17Enc(e.goPos) {
+						o.fail("wrong-position-analysed", ctx+": the searcher evaluated "+q, "only the declared (finished) position "+c17Enc(e.goPos))
+						break
+					}
+				}
+			} else if e.exact && r.nevals > 0 {
 				o.fail("search-on-refused-go", ctx+fmt.Sprintf(": %d evaluations", r.nevals), "no search")
 			}
 			if len(r.out) > 0 || r.nevals > 0 {
